@@ -30,7 +30,7 @@ pub struct Gram {
 }
 
 pub const NT_NAMES: [&str; 4] = ["S", "A", "B", "C"];
-pub const T_CHARS: [&str; 4] = ["a", "b", "c", "d"];
+pub const T_CHARS: [&str; 7] = ["a", "b", "c", "d", "e", "f", "g"];
 
 impl Gram {
     pub fn simple(nnt: usize, nt: usize, prods: Vec<(u8, Alts)>, lalr: bool) -> Gram {
